@@ -3,6 +3,7 @@ CONSTANTS
   File <- FilesF
   FDataSeq <- DataF
   FOther <- OtherF
+  FSplit <- SplitF
   Caps <- GenCaps
 VIEW FocusView
 INVARIANT EmitAll
